@@ -173,10 +173,50 @@ pub fn run(outdir: &str, seed: u64, thorough: bool) -> serde_json::Value {
         if filtered != st_ty { st.bump("mixed_narrowed"); }
         if i < 1 { st.sample(json!({"stream":"mixed columns","predicate":ex.to_string(),"type":st_ty.to_string(),"narrowed":filtered.to_string()})); }
     }
+    // ---- nullable integer columns: correspondence for QV/Expr/FilterNull.v (ranges by the same narrowing, optional flags
+    //      never dropped where the model keeps them) and the row oracle with NULLs
+    let mut ncases: Vec<String> = vec![];
+    for i in 0..(if thorough { 20000 } else { 1500 }) {
+        let mut r = rng.fork();
+        let p = loop { let p = gen_p(&mut r, 2); fn has_bool(p: &P) -> bool { match p { P::BoolCol => true, P::And(a, b) | P::Or(a, b) => has_bool(a) || has_bool(b), _ => false } } if !has_bool(&p) { break p; } };
+        let sets: Vec<Vec<(i64, i64)>> = (0..3).map(|_| int_set(&mut r)).collect();
+        let opts: Vec<bool> = (0..3).map(|_| r.chance(1, 2)).collect();
+        let dts: Vec<DataType> = sets.iter().zip(opts.iter()).map(|(s, o)| { let t = to_dt(&Ty::Int(s.clone())); if *o { DataType::optional(t) } else { t } }).collect();
+        let st_ty = DataType::structured([("a", dts[0].clone()), ("b", dts[1].clone()), ("c", dts[2].clone())]);
+        let ex = p_expr(&p);
+        let flag_ivs = |t: &DataType, name: &str| -> Option<(bool, Vec<[i64; 2]>)> {
+            if let DataType::Struct(s) = t { let f = s.data_type(name); let (o, inner) = match f.as_ref() { DataType::Optional(x) => (true, x.data_type().clone()), x => (false, x.clone()) };
+                match inner { DataType::Integer(i) => Some((o, i.iter().map(|[a, b]| [*a, *b]).collect())), DataType::Null => Some((o, vec![])), _ => None } } else { None } };
+        let filtered = match catch_unwind(AssertUnwindSafe(|| st_ty.filter(&ex))) { Ok(f) => f, Err(_) => { st.bump("nullable_filter_panicked"); continue; } };
+        let tin: Option<Vec<(bool, Vec<[i64; 2]>)>> = COLS.iter().map(|c| flag_ivs(&st_ty, c)).collect();
+        let tout: Option<Vec<(bool, Vec<[i64; 2]>)>> = COLS.iter().map(|c| flag_ivs(&filtered, c)).collect();
+        // oracle: rows with NULLs on which the predicate is true stay in the narrowed type
+        let mut sat = 0;
+        for _ in 0..8 {
+            let vs: Vec<Option<i64>> = sets.iter().zip(opts.iter()).map(|(s, o)| { if *o && r.chance(1, 3) { None } else { let (a, b) = *r.pick(s); Some(match r.below(4) { 0 => a, 1 => b, 2 => r.range(a, b), _ => r.range(a.max(-16), b.min(16).max(a.max(-16))) }) } }).collect();
+            let val = |k: usize| -> Value { match (vs[k], opts[k]) { (None, _) => Value::none(), (Some(x), true) => Value::some(Value::integer(x)), (Some(x), false) => Value::integer(x) } };
+            let row = Value::structured([("a", val(0)), ("b", val(1)), ("c", val(2))]);
+            if !st_ty.contains(&row) { continue; }
+            let holds = catch_unwind(AssertUnwindSafe(|| ex.value(&row).ok())).unwrap_or(None);
+            if holds == Some(Value::boolean(true)) || holds == Some(Value::some(Value::boolean(true))) {
+                sat += 1;
+                if !member(&filtered, &row) { st.violation(json!({"kind":"satisfying-row-dropped","class":"nullable-integer-columns","predicate":ex.to_string(),"type":st_ty.to_string(),"narrowed":filtered.to_string(),"row":vs})); }
+            }
+        }
+        st.add("nullable_satisfying_rows", sat);
+        let pr = |l: &Vec<[i64; 2]>| coq_list(l, |[a, b]| format!("({},{})", coq_z(*a as i128), coq_z(*b as i128)));
+        if let (Some(tin), Some(tout)) = (&tin, &tout) {
+            ncases.push(format!("({}, {}, {})", coq_list(tin, |(o, l)| format!("({}, {})", coq_bool(*o), pr(l))), p_coq(&p), coq_list(tout, |(o, l)| format!("({}, {})", coq_bool(*o), pr(l)))));
+            st.bump("nullable_cases");
+        } else { st.bump("nullable_narrowed_type_not_integer_struct"); }
+        st.evaluations += 1; st.distinct.insert(hash_str(&format!("null{}{}", ex, st_ty)));
+        if i < 1 { st.sample(json!({"stream":"nullable integer columns","predicate":ex.to_string(),"type":st_ty.to_string(),"narrowed":filtered.to_string()})); }
+    }
     let header = "From QV Require Import Intervals.Model Fn.IntExpr Expr.Filter Corr.Lib Corr.C10.";
+    let fnull = write_shards(outdir, "c10_nullable", header, "c10_null_case", "filter_null_check", &ncases, if thorough { 1500 } else { 200 });
     let f = write_shards(outdir, "c10_filter", header, "c10_case", "filter_check", &cases, if thorough { 1500 } else { 200 });
     std::fs::write(format!("{}/c10_filter.json", outdir), serde_json::to_string(&cj).unwrap()).unwrap();
     let mut out = st.to_json("predicates of depth <= 2 (comparisons between columns, constants and integer expressions, IN lists, AND, OR, constants, unsupported sub-terms) over three integer interval-set columns x 8 rows (correspondence + oracle); predicates over nullable / float / text / boolean columns (oracle). non-trivial: the type is narrowed and some sampled row satisfies the predicate; distinct by (predicate, type)");
-    out["shards"] = json!({"c10_filter": f});
+    out["shards"] = json!({"c10_filter": f, "c10_nullable": fnull});
     out
 }
